@@ -14,15 +14,21 @@ RULE = ("streams = grammar-generated request pipelines (methods x target forms x
         "length/chunked/trailers bodies), each smuggling-mutation class, byte mutations, truncations; x limit "
         "configurations (default and small, equal and unequal); x segmentations (one-shot, byte-at-a-time, single "
         "cuts incl. around every CR/LF, random k-cuts; thorough: every single cut and sampled cut pairs). Responses "
-        "(lax parser) likewise for the implementation self-consistency oracle. Non-trivial = at least one message "
+        "(lax parser) likewise, plus lax-dialect generators (LF / CRLF / CR CR LF line ends, status lines with Unicode "
+        "white space and undecodable bytes, obs-fold, lax chunk sizes, directed CR-skipping streams cut at every "
+        "position) against the response model, and well-formed pipelines for the strict-reading oracle. Non-trivial = at least one message "
         "delivered; distinct by hash of (stream, limits, segmentation).")
 TRUSTED = [
     "translator/gen_http.py (regex classes, constants, ast shape of the empty_body and re-raise rules)",
     "extraction: ExtrOcamlBasic only; ocaml/common/conv.ml + ocaml/HTTP/driver.ml",
     "correspondence harness harness/httpfam.py + harness/c03.py: sampled, not proved",
     "yarl is an oracle for authority-/absolute-form request targets (harness asks the real yarl)",
-    "modelled, not verified: HttpRequestParser (strict). The response parser (lax mode) is NOT modelled in Coq: "
-    "for it only the implementation's own outcomes across segmentations are compared",
+    "modelled, not verified: HttpRequestParser (strict, Model/Http.v) and HttpResponseParser (lax mode, Model/HttpResp.v: "
+    "translator/gen_httpresp.py, ocaml/HTTPRESP/driver.ml, harness/httpresp.py; suite response-parser-model). CPython's "
+    "utf-8/surrogateescape decoder, str.isspace() set and the ASCII-producing part of str.lower() are transcribed in "
+    "coq/Lib/Utf8Decode.v and compared with CPython on every code point each run",
+    "strict-reading oracle (harness/httpresp.py gen_wellformed / MUST_REJECT): the expected reading of generated "
+    "well-formed responses is written by hand from RFC 9112, independent of the Coq model",
     "payload consumer never pauses (no decompression, read limit 4 MiB): pausing is C09's subject",
 ]
 ASSUMPTIONS = ["Python parser (AIOHTTP_NO_EXTENSIONS=1)", "model/implementation agreement validated on generated cases only"]
